@@ -229,6 +229,39 @@ def r84(facts, res):
         res.ok(R, 'generic-tree', loc_of(b), 'children in order: value -> itself, lexeme -> fterm(lexeme); result fnonterm(ridx, nodes)')
 
 
+def r85(facts, res):
+    """Shift arm: the span pushed on the span stack is the span of the very lexeme pushed on the value stack"""
+    R = 'R8.5'
+    for name in ('lr', 'lr_upto'):
+        b = find_fn(facts, R, name)
+        tab, lookup, lh = arms(facts, R, b)
+        n = 0
+        probs = set()
+        for p in tab.get('Shift', []):
+            if p.end[0] == 'diverge':
+                continue
+            lex = [e for e in p.calls(name='push') if find_variant(e[3][1], 'Lexeme', 'AStackType') is not None]
+            sp = [e for e in p.calls(name='push') if is_call(strip_ref(e[3][1]), 'span')]
+            if not lex and not sp:
+                continue  # no value/span stacks on this path (search mode)
+            n += 1
+            if len(lex) != 1 or len(sp) != 1:
+                probs.add('a shift pushes %d lexeme values and %d spans (must be one each)' % (len(lex), len(sp)))
+                continue
+            L = find_variant(lex[0][3][1], 'Lexeme', 'AStackType')[4][0]
+            S = strip_ref(strip_ref(sp[0][3][1])[2][0])
+            if S != L:
+                probs.add('the span pushed is that of %s but the value pushed is %s' % (fmt_term(S)[:70], fmt_term(L)[:70]))
+        key = 'shift-span:' + name
+        if probs:
+            res.bad(R, key, loc_of(b), '; '.join(sorted(probs)))
+        elif n:
+            res.ok(R, key, loc_of(b), 'on a shift the span stack receives the span of the very lexeme pushed on the value stack (%d paths)' % n)
+        else:
+            res.bad(R, key, loc_of(b), 'no Shift path pushes a lexeme value')
+
+
 def run(facts, res):
+    r85(facts, res)
     r81_82_83(facts, res)
     r84(facts, res)
